@@ -304,6 +304,85 @@ def entrypoint_cases(failures_add):
                                      "(the controller would wait for ever)", "other")
                     if died is None and failing is not None and ran and not reported:
                         failures_add("C05/failed-load-is-reported", desc, "the load of an input failed, the task 'ran' and no TaskFailure was reported", "other")
+    # ---- a sequence of two tasks: the first needs a dataset from outside the sequence, the second only the first one's output --------------
+    X, M = DatasetId("a", "0"), DatasetId("m", "0")
+    job2 = JobInstance(tasks={t: TaskInstance(definition=tdef(), static_input_kw={}, static_input_ps={}) for t in ("a", "m", "s")}, edges=[])
+    psrc2 = {"a": {}, "m": {0: X}, "s": {0: M}}
+    for ts_first in (True, False):
+        n += 1
+        ts = TaskSequence(worker=w, tasks=["m", "s"], publish={DatasetId("s", "0")})
+        pub = DatasetPublished(origin=w, ds=X, transmit_idx=None)
+        msgs = ([ts, pub] if ts_first else [pub, ts]) + [WorkerShutdown()]
+        wire = [ser_message(m) for m in msgs]
+        announced, ran, sent, started_early = set(), [], [], []
+
+        class Sock2:
+            def bind(self, a):
+                pass
+
+            def recv(self):
+                m = msgs[len(msgs) - len(wire)]
+                if isinstance(m, DatasetPublished):
+                    announced.add(m.ds)
+                return wire.pop(0)
+
+        class Zmq2:
+            PULL = 1
+
+            class Context:
+                def socket(self, k):
+                    return Sock2()
+
+        class Mem2:
+            def __init__(self, *a):
+                pass
+
+            def __enter__(self):
+                return self
+
+            def __exit__(self, *a):
+                return False
+
+            def provide(self, ds, ann):
+                return 1
+
+            def pop(self, ds):
+                pass
+
+            def flush(self):
+                pass
+
+        class Pk2:
+            def __enter__(self):
+                return self
+
+            def __exit__(self, *a):
+                return False
+
+            def extend(self, e):
+                pass
+
+        def fake_run2(task, ectx, memory):
+            external = [d for d in psrc2[task].values() if d.task not in ("m", "s")]
+            missing = [d for d in external if d not in announced]
+            if missing:
+                started_early.append((task, missing))
+            ran.append(task)
+        saved = (ep.zmq, ep.Memory, ep.PackagesEnv, ep.run, ep.callback, ep.logging.config.dictConfig)
+        ep.zmq, ep.Memory, ep.PackagesEnv, ep.run, ep.callback = Zmq2, Mem2, Pk2, fake_run2, (lambda addr, m: sent.append(m))
+        ep.logging.config.dictConfig = lambda c: None
+        died = None
+        try:
+            ep.entrypoint(ep.RunnerContext(workerId=w, job=job2, callback="cb", param_source=psrc2))
+        except BaseException as e:  # noqa
+            died = e
+        finally:
+            ep.zmq, ep.Memory, ep.PackagesEnv, ep.run, ep.callback, ep.logging.config.dictConfig = saved
+        desc = {"sequence": ["m", "s"], "m needs": repr(X), "s needs": "m.0 (produced inside the sequence)", "sequence_before_publication": ts_first}
+        if started_early:
+            failures_add("C02/worker-starts-only-after-inputs-arrived", desc, f"task {started_early[0][0]} started before {started_early[0][1]} was announced to the worker", "other")
+        if died is None and ran != ["m", "s"] and not [m for m in sent if isinstance(m, TaskFailure)]:
+            failures_add("C05/worker-never-sits-on-a-runnable-sequence", desc, f"ran {ran}, nothing reported, worker alive", "other")
     return n
 
 
@@ -408,6 +487,56 @@ def terminate_and_atexit(failures_add):
             failures_add("C05/terminate-stops-shm-server", desc, f"shm shutdown called {len(shut)} times, joined {ex.shm_process.joined}", "other")
         if ex.data_server.killed != 1:
             failures_add("C05/terminate-kills-data-server", desc, f"data server killed {ex.data_server.killed} times", "other")
+    # a failure DURING start-up (register -> start_workers): every worker process that was forked is stopped by the error path's terminate()
+    from cascade.executor.msg import WorkerReady, TaskFailure
+    from cascade.low.core import WorkerId
+    for n_workers in (1, 2, 3):
+        for fail_after_ready in range(0, n_workers):          # how many WorkerReady notices arrive before an unexpected message does
+            for start_fails_at in (None,) + tuple(range(1, n_workers)):   # or: Process.start() raises for this worker
+                n += 1
+                forked = []
+
+                class P(Handle):
+                    def __init__(self, target=None, kwargs=None):
+                        Handle.__init__(self)
+                        self.started = False
+
+                    def start(self):
+                        if start_fails_at is not None and len(forked) == start_fails_at:
+                            raise OSError("fork failed")
+                        self.started = True
+                        forked.append(self)
+
+                class Ctx:
+                    Process = P
+                ex = make_executor(comms, exe_mod, [])
+                ws = [WorkerId("h0", f"w{i}") for i in range(n_workers)]
+                ex.workers = {w_: None for w_ in ws}
+                ex.job_instance, ex.param_source = None, {}
+                script = [[WorkerReady(w_)] for w_ in ws[:fail_after_ready]] + [[TaskFailure(ws[0], None, "unexpected")]]
+
+                class L:
+                    address = "E"
+
+                    def recv_messages(self, timeout_ms=0):
+                        return script.pop(0) if script else [TaskFailure(ws[0], None, "unexpected")]
+                ex.mlistener = L()
+                saved_ctx, saved_ensure = exe_mod.get_context, getattr(SC, "ensure", None)
+                exe_mod.get_context = lambda kind=None: Ctx
+                SC.ensure = staticmethod(lambda: None)
+                sent_before = len(net.wire)
+                del shut[:]
+                try:
+                    ex.register()      # swallows the failure and terminates
+                except Exception as e:  # noqa
+                    failures_add("C05/failed-startup-is-cleaned-up", {"workers": n_workers}, f"register raised {e!r}", "other")
+                finally:
+                    exe_mod.get_context = saved_ctx
+                left = [p_ for p_ in forked if p_.joined == 0]
+                desc = {"workers": n_workers, "ready_notices_before_the_failure": fail_after_ready, "Process.start_fails_for_worker": start_fails_at}
+                if left:
+                    failures_add("C05/failed-startup-leaves-no-worker-behind", desc, f"{len(left)} of {len(forked)} forked worker processes were neither told to shut down nor joined", "other")
+                net.wire.clear()
     # Manager.atexit leaves no segment behind
     from checks import shm_bounded
     w = shm_bounded.World(8)
@@ -430,7 +559,7 @@ def run(out, tier, seed):
     failures, seen = [], set()
 
     def add(ob, desc, what, cls="other"):
-        if (ob, cls) in seen:
+        if (ob, cls) in seen or ob.startswith("C02/"):   # the C02 clause monitored by the worker-loop part is reported by the C02 check
             return
         seen.add((ob, cls))
         failures.append({"obligation": ob, "inputs": desc, "observed": what[:500], "class": cls, "clause": ob})
